@@ -30,7 +30,8 @@ struct Prob {
     x: Vec<Vec<f64>>,
     k: Vec<Vec<f64>>,
     linear: bool,
-    /// tag `weighted_sum` evaluates: 0 linear, 1 a tag unrelated to `k`, 2 `Polynomial(1, 2)`
+    /// tag `weighted_sum` evaluates: 0 linear, 1 a tag unrelated to `k`, 2 `Polynomial(1, 2)`,
+    /// 3 `Polynomial(1, 1)` (degree 1 with a constant: not `is_linear`, rows are stored)
     meth: u8,
     /// 0 `PermutableKernel`, 1 `PermutableKernelOneClass`, 2 `PermutableKernelRegression`
     km: u8,
@@ -43,6 +44,8 @@ struct Prob {
     eps: f64,
     q: Vec<Vec<f64>>,
     tiny_bounds: bool,
+    /// bounds that are not dyadic (0.1, 0.3, ...): sums and differences of bounds round
+    inexact_bounds: bool,
 }
 
 impl Prob {
@@ -71,6 +74,8 @@ impl Prob {
     fn bounds_class(&self) -> &'static str {
         if self.tiny_bounds {
             "tiny"
+        } else if self.inexact_bounds {
+            "inexact"
         } else if self.b.iter().all(|v| *v == self.b[0]) {
             "equal"
         } else {
@@ -149,11 +154,12 @@ fn gen_prob(rng: &mut Rng, nmax: usize, psd_only: bool, for_solve: bool) -> Prob
         let b = rng.below(m);
         x[a] = x[b].clone();
     }
-    let kind = if psd_only { rng.below(2) } else { rng.below(3) };
+    let kind = if psd_only { *rng.pick(&[0usize, 1, 3]) } else { rng.below(4) };
     let dot = |a: &Vec<f64>, b: &Vec<f64>| a.iter().zip(b.iter()).map(|(u, v)| u * v).sum::<f64>();
     let (k, linear, meth): (Vec<Vec<f64>>, bool, u8) = match kind {
         0 => ((0..m).map(|i| (0..m).map(|j| dot(&x[i], &x[j])).collect()).collect(), true, 0),
         1 => ((0..m).map(|i| (0..m).map(|j| (dot(&x[i], &x[j]) + 1.0) * (dot(&x[i], &x[j]) + 1.0)).collect()).collect(), false, 2),
+        3 => ((0..m).map(|i| (0..m).map(|j| dot(&x[i], &x[j]) + 1.0).collect()).collect(), false, 3),
         _ => {
             // arbitrary symmetric integer matrix (may be indefinite: exercises the 1e-10 guard)
             let mut mm = vec![vec![0.0; m]; m];
@@ -185,7 +191,13 @@ fn gen_prob(rng: &mut Rng, nmax: usize, psd_only: bool, for_solve: bool) -> Prob
     // bounds around the support-vector threshold 100 eps (solve only): coefficients that sit at
     // such a bound are the ones on which the three `100 eps` filters of the code must agree
     let tiny_bounds = for_solve && !nu && rng.chance(1, 5);
-    let b: Vec<f64> = if tiny_bounds {
+    // scripted steps only: per-sample bounds that are not dyadic, cast to the float type of the run (the clipping
+    // code computes `bound_j + diff`, `bound_i - diff`, `sum - bound_i`: with such bounds these round)
+    let inexact_bounds = !for_solve && rng.chance(1, 8);
+    let b: Vec<f64> = if inexact_bounds {
+        let ci = [0.1, 0.3, 0.7, 1.1, 2.3];
+        (0..n).map(|_| { let v = *rng.pick(&ci); if f32_ { (v as f32) as f64 } else { v } }).collect()
+    } else if tiny_bounds {
         let ts = [4.0 * fe, 16.0 * fe, 32.0 * fe, 64.0 * fe, 128.0 * fe, 256.0 * fe, 512.0 * fe, 2048.0 * fe, 1.0, 1.0, 2.0, 0.5];
         (0..n).map(|_| *rng.pick(&ts)).collect()
     } else if nu && rng.chance(2, 3) {
@@ -259,7 +271,7 @@ fn gen_prob(rng: &mut Rng, nmax: usize, psd_only: bool, for_solve: bool) -> Prob
     } else {
         vec![]
     };
-    Prob { n, x, k, linear, meth, km, nu, f32_, y, p, b, a0, eps, q, tiny_bounds }
+    Prob { n, x, k, linear, meth, km, nu, f32_, y, p, b, a0, eps, q, tiny_bounds, inexact_bounds }
 }
 
 fn stepper<'a, F: linfa::Float>(pr: &Prob, ds: &'a Array2<F>, shrinking: bool) -> StepperG<'a, F> {
@@ -269,6 +281,7 @@ fn stepper<'a, F: linfa::Float>(pr: &Prob, ds: &'a Array2<F>, shrinking: bool) -
     let method = match pr.meth {
         0 => KernelMethod::Linear,
         2 => KernelMethod::Polynomial(F::one(), F::cast(2.0)),
+        3 => KernelMethod::Polynomial(F::one(), F::one()),
         _ => KernelMethod::Gaussian(F::one()),
     };
     let kind = match pr.km {
@@ -310,6 +323,17 @@ fn dump_str(d: &Dump) -> String {
         list(d.targets.iter(), |v| (*v as u8).to_string()),
         list(d.bounds.iter(), |v| hex64c(*v)),
     )
+}
+
+/// clause of a box failure: an excess of at most 8 ulp of the largest bound is the rounding of `update`'s clipped
+/// value (open finding `C13-update-clip-rounds-outside-box`), anything else is `box`
+pub(crate) fn box_clause(a: f64, lo: f64, hi: f64, bmax: f64, fe: f64) -> &'static str {
+    let slack = 8.0 * fe * bmax;
+    if (a > hi && a <= hi + slack) || (a < lo && a >= lo - slack) {
+        "box_rounding"
+    } else {
+        "box"
+    }
 }
 
 fn close(a: f64, b: f64, scale: f64, rel: f64) -> bool {
@@ -363,7 +387,8 @@ fn oracle_state(ctx: &mut Ctx, pr: &Prob, d: &Dump, class: &str, at: &str, after
     for k in 0..n {
         let a = d.alpha[k];
         let bb = pr.b[s[k]];
-        ctx.require(a >= 0.0 && a <= bb, "box", class, || format!("{}: alpha of sample {} = {} outside [0,{}]", at, s[k], a, bb));
+        let bmax = pr.b.iter().fold(0.0f64, |m, v| m.max(*v));
+        ctx.require(a >= 0.0 && a <= bb, box_clause(a, 0.0, bb, bmax, pr.feps()), class, || format!("{}: alpha of sample {} = {:e} outside [0,{:e}] (by {:e})", at, s[k], a, bb, if a < 0.0 { -a } else { a - bb }));
         ysum += pr.ysign(s[k]) * a;
         scale = scale.max(bb);
     }
@@ -403,7 +428,8 @@ fn oracle_kkt(ctx: &mut Ctx, pr: &Prob, alpha: &[f64], rho: f64, r: Option<f64>,
     let mut ysum = 0.0;
     let mut ysum0 = 0.0;
     for i in 0..n {
-        ctx.require(alpha[i] >= 0.0 && alpha[i] <= pr.b[i], "box", class, || format!("published alpha[{}] = {} outside [0,{}]", i, alpha[i], pr.b[i]));
+        let bmax = pr.b.iter().fold(0.0f64, |m, v| m.max(*v));
+        ctx.require(alpha[i] >= 0.0 && alpha[i] <= pr.b[i], box_clause(alpha[i], 0.0, pr.b[i], bmax, pr.feps()), class, || format!("published alpha[{}] = {:e} outside [0,{:e}]", i, alpha[i], pr.b[i]));
         ysum += pr.ysign(i) * alpha[i];
         ysum0 += pr.ysign(i) * pr.a0[i];
     }
@@ -580,7 +606,7 @@ fn run_solve<F: linfa::Float>(ctx: &mut Ctx, pr: &Prob, shrinking: bool, class: 
         ctx.require(s.alpha.len() == m, "alpha_len", class, || format!("{} coefficients for {} samples", s.alpha.len(), m));
         ctx.require(close(ssum, ysum0, bs * pr.n as f64, pr.rel()), "equality", class, || format!("sum of folded coefficients {} but the start had sum y alpha = {}", ssum, ysum0));
         for i in 0..m {
-            ctx.require(s.alpha[i] <= pr.b[i] && -s.alpha[i] <= pr.b[i + m], "box", class, || format!("folded coefficient {} = {} outside [-{}, {}]", i, s.alpha[i], pr.b[i + m], pr.b[i]));
+            ctx.require(s.alpha[i] <= pr.b[i] && -s.alpha[i] <= pr.b[i + m], box_clause(s.alpha[i], -pr.b[i + m], pr.b[i], bs, fe), class, || format!("folded coefficient {} = {} outside [-{}, {}]", i, s.alpha[i], pr.b[i + m], pr.b[i]));
         }
     } else {
         oracle_kkt(ctx, pr, &s.alpha, s.rho, s.r, s.iterations, class);
@@ -616,6 +642,8 @@ fn run_solve<F: linfa::Float>(ctx: &mut Ctx, pr: &Prob, shrinking: bool, class: 
         let kv = |i: usize| -> f64 {
             if pr.meth == 0 {
                 dot(&pr.x[i])
+            } else if pr.meth == 3 {
+                dot(&pr.x[i]) + 1.0
             } else {
                 (dot(&pr.x[i]) + 1.0) * (dot(&pr.x[i]) + 1.0)
             }
